@@ -228,8 +228,8 @@ TRUSTED = ("Trusted: Coq kernel; extraction (ExtrOcamlBasic) + OCaml driver; Rus
            "stepping); fjall (ordered KV, atomic batch), scru128 (fresh increasing ids), serde_json modelled as oracles. ")
 HYPS = ["id oracle (scru128) hands out fresh ids < 2^128 (checked on every run: ids the implementation returned are fed to the model)",
         "refinement hypotheses hyp_all (Model/Spec.v), each a known-finding class or an input the API cannot produce: "
-        "no import re-using an id under another topic/context (F7), no context 2^128-1 (F8), no NUL in a queried head "
-        "topic (F9), imported registration frames carry a persistent TTL, id 0 is not an xs.context frame"]
+        "no import re-using an id under another topic/context (F7), no context 2^128-1 (F8), "
+        "imported registration frames carry a persistent TTL, id 0 is not an xs.context frame"]
 
 
 def c20_run(ctx):
